@@ -10,6 +10,9 @@ jobs and pool.close() can be produced.  Scenarios:
   each optionally with close() racing with completions (close is called right after the last submission).
 Invariants: a job never runs twice; accepted jobs run exactly once unless close() began before they started; live worker
 threads <= THREADPOOL_SIZE; idle and busy are disjoint; no deadlock; after close() every worker thread exits.
+Layer 1b (histories, same scheduler): connections arrive and end in several phases (fill up, refusals, drain, shrink to
+the minimum size, grow again); reference model: an arrival is accepted iff fewer than THREADPOOL_SIZE connections are being
+served at that moment.
 Layer 2 (live): a real thread-pool server with THREADPOOL_SIZE 1..2; a connection arriving while all workers are busy
 gets CONNECTFAIL whose text mentions the pool, nothing is executed for it, and it is closed.
 """
@@ -27,7 +30,8 @@ LEVEL = "exploration"
 RULE = ("a case = (pool min/max size 1..3, njobs 1..5, job kind instant|blocking, close racing or not, schedule = explicit choices at "
         "numbered scheduling decisions, one decision per executed source line of svr_threads.py). Enumerated part: for each "
         "configuration of a fixed catalogue ALL schedules with <= 1 (quick) / <= 2 (thorough) deviations from run-to-block; generated "
-        "part: Hypothesis configurations with random choice lists; live part: real connections against a full pool. Non-trivial: the "
+        "part: Hypothesis configurations with random choice lists; history part: generated arrive/end sequences of up to 16 steps in several "
+        "phases judged against an occupancy model; live part: real connections against a full pool. Non-trivial: the "
         "schedule preempts a thread inside svr_threads.py at least once (scheduler part) / the pool is full (live part); distinct = "
         "distinct (configuration, schedule)")
 ASSUMPTIONS = ["preemption granularity is one source line of svr_threads.py", "threading.Event/Lock and time.sleep used by svr_threads are replaced by scheduler-aware equivalents; Worker.start/join go through the scheduler",
@@ -227,9 +231,207 @@ def check_trial(cfg, sch, f):
     return V
 
 
+# ------------------------------------------------------------------------------------------------
+# histories: connections arriving and finishing in several phases (the pool fills up, refuses, drains, shrinks, grows again)
+# ------------------------------------------------------------------------------------------------
+def run_history(cfg, ops, choices=None):
+    """ops: ["sub"] = a connection arrives (its job blocks until released) | ["rel", k] = the k-th still running job ends and the
+    harness waits until its worker has been handed back.  Reference model: occupancy = jobs accepted and not yet ended; an
+    arrival must be accepted iff occupancy < THREADPOOL_SIZE."""
+    import Pyro5.svr_threads as T
+    from Pyro5 import config
+    size, minsize = cfg["size"], cfg["minsize"]
+    old_cfg = (config.THREADPOOL_SIZE, config.THREADPOOL_SIZE_MIN)
+    config.THREADPOOL_SIZE, config.THREADPOOL_SIZE_MIN = size, minsize
+    sch = S.Sched(FILES, choices=choices, max_steps=20000)
+    shim = types.SimpleNamespace(Event=lambda: S.SEvent(sch), Lock=lambda: S.SLock(sch), RLock=lambda: S.SRLock(sch),
+                                 Thread=threading.Thread, current_thread=threading.current_thread)
+    real_threading, real_time, real_worker = T.threading, T.time, T.Worker
+    T.threading = shim
+    T.time = types.SimpleNamespace(sleep=lambda x: sch.yield_point(), time=real_time.time)
+    workers = []
+    counter = itertools.count()
+    f = {"ran": {}, "live": 0, "max_live": 0, "events": [], "error": None, "wrong": [], "overlap": False}
+
+    class W(real_worker):
+        def __init__(self, pool):
+            threading.Thread.__init__(self)
+            self.daemon = True
+            self.job_available = S.SEvent(sch)
+            self.job = None
+            self.pool = pool
+            self.name = "w%d" % next(counter)
+            workers.append(self)
+            self._st = None
+
+        def start(self):
+            f["live"] += 1
+            f["max_live"] = max(f["max_live"], f["live"])
+
+            def body():
+                try:
+                    real_worker.run(self)
+                finally:
+                    f["live"] -= 1
+            self._st = sch.spawn(body, self.name)
+
+        def join(self, timeout=None):
+            st = self._st
+            if st is not None:
+                sch.block_until(lambda: st["done"])
+
+        def is_alive(self):
+            return self._st is not None and not self._st["done"]
+    T.Worker = W
+    gates = {}
+    ended = set()
+
+    def job(i):
+        gates[i] = S.SEvent(sch)
+
+        def j():
+            f["ran"][i] = f["ran"].get(i, 0) + 1
+            gates[i].wait()
+            ended.add(i)
+        return j
+
+    def main():
+        try:
+            pool = T.Pool()
+        except Exception as x:
+            f["error"] = ("Pool()", x)
+            return
+        running = []      # accepted, not yet released
+        n = 0
+        for op in ops:
+            if op[0] == "sub":
+                occupancy = len(running)
+                i = n
+                n += 1
+                try:
+                    pool.process(job(i))
+                    accepted = True
+                except T.NoFreeWorkersError:
+                    accepted = False
+                except Exception as x:
+                    f["error"] = ("process", i, x)
+                    break
+                f["events"].append(("sub", i, occupancy, accepted))
+                if accepted and occupancy >= size:
+                    f["wrong"].append("connection %d accepted while %d of %d workers were serving" % (i, occupancy, size))
+                if not accepted and occupancy < size:
+                    f["wrong"].append("connection %d refused while only %d of %d workers were serving (events so far: %r)" % (i, occupancy, size, f["events"]))
+                if accepted:
+                    running.append(i)
+            elif running:
+                i = running.pop(op[1] % len(running))
+                gates[i].set()
+                want = len(running)
+                # the connection has ended: wait until its worker has been handed back (or retired)
+                sch.block_until(lambda: i in ended and len(pool.busy) == want)
+                f["events"].append(("rel", i))
+            if pool.idle & pool.busy:
+                f["overlap"] = True
+        for i in running:
+            gates[i].set()
+        sch.block_until(lambda: all(i in ended for i in running) and not pool.busy)
+        try:
+            pool.close()
+        except Exception as x:
+            f["error"] = ("close", x)
+    sch.spawn(main, "main")
+    try:
+        sch.run()
+    finally:
+        T.threading, T.time, T.Worker = real_threading, real_time, real_worker
+        config.THREADPOOL_SIZE, config.THREADPOOL_SIZE_MIN = old_cfg
+    f["workers_done"] = [w._st is None or w._st["done"] for w in workers]
+    f["worker_names"] = [w.name for w in workers]
+    return sch, f
+
+
+def check_history(case, sch, f):
+    V = []
+    desc = "case=%r" % (case,)
+
+    def viol(sig, what):
+        V.append(Violation("C18:history:" + sig, (what + "  " + desc)[:900]))
+    if sch.overrun:
+        viol("livelock", "more than %d scheduling steps" % sch.max_steps)
+        return V
+    if f["error"]:
+        viol("pool-raises", "pool operation raised %r" % (f["error"],))
+    if f["wrong"]:
+        sig = "refused-with-free-capacity" if "refused" in f["wrong"][0] else "accepted-beyond-capacity"
+        viol(sig, f["wrong"][0])
+    if sch.deadlock and not f["wrong"] and not f["error"]:
+        stuck = list(getattr(sch, "stuck", [])) or [n for n, s in sch.threads.items() if not s["done"]]
+        viol("stuck", "no thread can run any more; stuck threads %r, events %r" % (stuck, f["events"]))
+        return V
+    errs = {n: e for n, e in sch.errors().items()}
+    if errs:
+        viol("thread-exception", "exception escaped a pool thread: %r" % (errs,))
+    twice = [i for i, n in f["ran"].items() if n > 1]
+    if twice:
+        viol("job-ran-twice", "jobs %r ran more than once" % twice)
+    never = [e[1] for e in f["events"] if e[0] == "sub" and e[3] and not f["ran"].get(e[1])]
+    if never and not sch.deadlock:
+        viol("accepted-job-never-ran", "connections %r were accepted but never served" % never)
+    ran_refused = [e[1] for e in f["events"] if e[0] == "sub" and not e[3] and f["ran"].get(e[1])]
+    if ran_refused:
+        viol("refused-job-ran", "connections %r were refused but served" % ran_refused)
+    if f["max_live"] > case["cfg"]["size"]:
+        viol("too-many-workers", "%d worker threads alive at once, THREADPOOL_SIZE=%d" % (f["max_live"], case["cfg"]["size"]))
+    if f["overlap"]:
+        viol("idle-busy-overlap", "a worker is in the idle and the busy set at once")
+    if not sch.deadlock and not all(f["workers_done"]):
+        viol("worker-never-exits", "worker threads still alive after close: %r" % [n for n, d in zip(f["worker_names"], f["workers_done"]) if not d])
+    return V
+
+
+@st.composite
+def history_case(draw):
+    size = draw(st.integers(1, 3))
+    cfg = {"size": size, "minsize": draw(st.integers(1, size))}
+    ops = draw(st.lists(st.one_of(st.just(["sub"]), st.just(["sub"]), st.tuples(st.just("rel"), st.integers(0, 3)).map(list)), min_size=2, max_size=16))
+    return {"layer": "history", "cfg": cfg, "ops": ops, "choices": draw(st.one_of(st.just([]), st.lists(st.integers(0, 3), max_size=60)))}
+
+
+def history_catalogue():
+    """fill the pool, be refused r times, drain it completely (it shrinks to its minimum), fill it again"""
+    for size, minsize in ((1, 1), (2, 1), (2, 2), (3, 1), (3, 2)):
+        for r in (1, 2, 3):
+            ops = [["sub"]] * (size + r) + [["rel", 0]] * size + [["sub"]] * (size + 1) + [["rel", 0]] + [["sub"]]
+            yield {"layer": "history", "cfg": {"size": size, "minsize": minsize}, "ops": ops, "choices": []}
+
+
+def _history_labels(case):
+    ops = case["ops"]
+    l = ["history", "size:%d" % case["cfg"]["size"], "default-schedule" if not case["choices"] else "random-schedule"]
+    if case["cfg"]["minsize"] < case["cfg"]["size"]:
+        l.append("pool-can-shrink")
+    return l
+
+
+def _history_nontrivial(case):
+    # an arrival after at least one refusal-sized burst and one ended connection
+    subs = rels = 0
+    for op in case["ops"]:
+        if op[0] == "sub":
+            subs += 1
+            if rels and subs > case["cfg"]["size"]:
+                return True
+        else:
+            rels += 1
+    return False
+
+
 def run_case(case):
     if case.get("layer") == "live":
         return run_live(case)
+    if case.get("layer") == "history":
+        sch, f = run_history(case["cfg"], case["ops"], case.get("choices") or None)
+        return check_history(case, sch, f)
     cfg = case["cfg"]
     sch, f = run_trial(cfg, preempt={int(k): v for k, v in case.get("preempt", {}).items()} or None, choices=case.get("choices"))
     return check_trial(cfg, sch, f)
@@ -335,6 +537,7 @@ def SHARDS(tier):
     sh = [{"part": "enum", "cat": i, "preemptions": 2 if (tier != "quick" or (c["njobs"] <= 2 and c["size"] <= 2 and not c["blocking"] and not c.get("closer"))) else 1}
           for i, c in enumerate(cat)]
     sh += [{"part": "random"} for _ in range(4 if tier == "quick" else 8)]
+    sh += [{"part": "history"} for _ in range(2 if tier == "quick" else 6)]
     sh += [{"part": "live"}]
     return sh
 
@@ -356,6 +559,11 @@ def run(ctx):
             n += 1
         ctx.exhaustive = True
         ctx.notes["schedules_enumerated"] = n
+    elif sh.get("part") == "history":
+        if sh["index"] % 2 == 0:
+            for case in history_catalogue():
+                ctx.observe(case, run_case(case), True, _history_labels(case) + ["catalogue"])
+        ctx.search(history_case(), run_case, ctx.n(400, 5000), nontrivial=_history_nontrivial, labels=_history_labels, name="poolhistory", max_rounds=4)
     elif sh.get("part") == "live":
         for size in (1, 2):
             for minsize in (1, 2):
